@@ -243,7 +243,7 @@ def r4_context_offset(ck, cx):
         ck.saw('functions', f.qn)
         fx, a, third = f.params[1], f.params[2], f.params[3]
         pols = set()
-        for p in cx.enum(f, c, max_depth=0):
+        for p in cx.enum(f, c, max_depth=1):
             st = annotate(p)
             zs = [ev for ev in p.ev if ev.kind == 'cond' and 'zero_mode' in U(ev.node)]
             zero = None
